@@ -172,7 +172,7 @@ def angleSampleCount : Nat :=
 def sI (l : List Int) : Int := l.foldl (· + ·) 0
 def b2s (b : Bool) : String := if b then "1" else "0"
 def report (l : List FAcc) (term : Bool := true) : String :=
-  s!"ok={b2s (allOk l)} n={l.length} term={b2s term} sum={sI (l.map (·.i))}"
+  s!"ok={b2s (allOk l && term)} n={l.length} term={b2s term} sum={sI (l.map (·.i))}"
 
 def bitAt (l : List Int) (i : Nat) : Bool := l.getD i 0 != 0
 
